@@ -1132,15 +1132,19 @@ func builtins() []*Builtin {
 			if !ok {
 				return a[0], nil
 			}
-			seen := map[interface{}]bool{}
+			// by value, with the model's own equality (the definition, not a key)
 			out := []interface{}{}
 			for _, x := range arr {
-				k := distinctKey(x)
-				if seen[k] {
-					continue
+				dup := false
+				for _, y := range out {
+					if Eq(x, y) {
+						dup = true
+						break
+					}
 				}
-				seen[k] = true
-				out = append(out, x)
+				if !dup {
+					out = append(out, x)
+				}
 			}
 			return out, nil
 		}},
